@@ -499,3 +499,34 @@ PROPS["C20"] = dict(
         technique="property-based testing (rapid) with a recording hook program and a reference argv substitution",
     ),
 )
+
+PROPS["C19"] = dict(
+    pkg="c19",
+    helpers=("cfgprobe",),
+    level="exploration",
+    rule=("(Files) TOML generated from a structured value over the documented keys (feeds.*, media.hook, the four colours, "
+          "preload_amount, timeout_seconds, cache_size): each key absent / right type in range / out of range (0, negative, huge; empty "
+          "or unrunnable hook; odd feed members) / wrong type; unknown keys and tables; syntax errors; missing file. Each file is given "
+          "through XDG_CONFIG_HOME to a probe binary built from the real packages, which prints the parsed configuration and runs a "
+          "fixed workout against the simulator (fetch, open an actor, move, resize to tiny sizes, open a link externally, o, :feed, "
+          "unknown feed). Required: syntax error / unknown key / wrong type / malformed colour => rejected with the 'failed to parse' "
+          "diagnostic and no Go panic; in-range file or no file => accepted with exactly the given values, defaults for the rest, "
+          "colours as decimal triples 0..255; out-of-range values => either verdict, but an accepted one must complete the workout. "
+          "(Colours) the colour converter on all 16 777 216 six-digit hex strings in both letter cases (thorough; quick: every value "
+          "of each component) and 27 malformed strings. Non-trivial: file with at least one setting or extra; every colour block. "
+          "Distinct = distinct file / colour block."),
+    units=[
+        enum("Colours", "TestColours"),
+        rapid("Files", "TestFiles", 700, 30000, shards=(8, 16), config_toml=_NET, timeout=dict(quick=600, thorough=3000)),
+    ],
+    exhaustive_claim=["Colours"],
+    manifest=dict(
+        text=("Property-based testing of start-up: generated configuration files are handed to a probe binary built from the real "
+              "packages (configuration is parsed in init(), exactly as in the real program) whose verdict and workout are judged; "
+              "the colour converter is enumerated exhaustively in the thorough tier. Sampled for files."),
+        design_ref="DESIGN.md §3 C19",
+        note=("Trusted: the probe's fixed workout as the meaning of 'safe to run with'; labels of the generated values. Hook: "
+              "package-internal shim config.VerifHexToAnsi (build tag verif, scratch copy only)."),
+        technique="property-based testing (rapid) of start-up verdicts via a probe binary + exhaustive enumeration of colours",
+    ),
+)
